@@ -1,5 +1,6 @@
 """C02 -- DEVS execution: each scheduled event runs exactly once, in order, clock = event time (DESIGN §3-C02)."""
 from .. import simrules as S
+from . import c01
 
 EXPLANATION = (
     "Path rules on the CFG of the simulator: for every pop_first() site a typestate automaton (popped -> clock set to "
@@ -22,3 +23,6 @@ def run(ctx):
     S.r24_literal_compare(ctx, sc)
     S.r25_monotone_clock(ctx, sc)
     S.r26_cancel(ctx, sc)
+    # cancelling and popping go through the event list: its heap discipline is a necessary condition here too (shared rule, same keys as C01)
+    for cname in ctx.prog.subclasses('EventListInterface'):
+        c01.check_eventlist(ctx, cname)
